@@ -15,13 +15,24 @@
 (***************************************************************************)
 EXTENDS Integers, Sequences, FiniteSets
 
-T(sz, sg) == [size |-> sz, align |-> sz, signed |-> sg, maxw |-> 8 * sz]
+(* A base type is a record [size, align, signed, maxw]; align = size for the built-in types of     *)
+(* x86_64, and SMALLER than size for                                                              *)
+(*   typedef T name __attribute__((aligned(n)))   (the *_aN entries; n < sizeof(T))               *)
+(*   long long on i686 (size 8, align 4): the i686 pass of check C03 feeds its `long long`        *)
+(*   bit-fields as llong_a4 / ullong_a4                                                           *)
+(* The layout rule takes the field offset modulo the ALIGNMENT and compares with the SIZE.        *)
+TA(sz, al, sg) == [size |-> sz, align |-> al, signed |-> sg, maxw |-> 8 * sz]
+T(sz, sg) == TA(sz, sz, sg)
 Ty == [bool |-> [size |-> 1, align |-> 1, signed |-> FALSE, maxw |-> 1],
        char |-> T(1, TRUE), uchar |-> T(1, FALSE),
        short |-> T(2, TRUE), ushort |-> T(2, FALSE),
        int |-> T(4, TRUE), uint |-> T(4, FALSE),
        llong |-> T(8, TRUE), ullong |-> T(8, FALSE),
-       enum |-> T(4, FALSE), senum |-> T(4, TRUE)]
+       enum |-> T(4, FALSE), senum |-> T(4, TRUE),
+       ushort_a1 |-> TA(2, 1, FALSE), short_a1 |-> TA(2, 1, TRUE),
+       uint_a1 |-> TA(4, 1, FALSE), uint_a2 |-> TA(4, 2, FALSE), int_a2 |-> TA(4, 2, TRUE),
+       ullong_a1 |-> TA(8, 1, FALSE), ullong_a2 |-> TA(8, 2, FALSE),
+       ullong_a4 |-> TA(8, 4, FALSE), llong_a4 |-> TA(8, 4, TRUE)]
 TypeNames == DOMAIN Ty
 Attrs == {"none", "packed", "pack1", "pack2", "pack4", "pack8", "aligned16"}
 
